@@ -48,6 +48,12 @@ def expected_from_tree(fs, root='/work/plt'):
                                 for k, w in enumerate(items[i + 1][2][:nw]):
                                     arr[k] = w
                                 cands.append(arr.reshape(shp + (nf,), order='F'))
+                            elif (i + 1 < len(items) and items[i + 1][1] == WD and (i + 2 >= len(items) or items[i + 2][1] == HB)) or \
+                                    (i + 1 >= len(items)) or (items[i + 1][1] == HB):
+                                # the FAB ends (next FAB header, or end of file) before it holds the declared number of
+                                # values: a box of the declared shape cannot hold "the values of that FAB"
+                                have = len(items[i + 1][2]) if i + 1 < len(items) and items[i + 1][1] == WD else 0
+                                cands.append(('short', have, nw))
                             else:
                                 # the bytes after this header are not (only) payload words of the model:
                                 # what "the values of that FAB" are cannot be named word by word
@@ -106,6 +112,12 @@ def run_path(mods, ref, corrs, ctx):
             if any(c is None for c in cands):
                 ctx.note('skipped: opaque bytes follow the FAB header')
                 continue
+            short = [c for c in cands if isinstance(c, tuple)]
+            if short and len(short) == len(cands):
+                obl.fail('%s returned %s values, but the FAB that names its index range holds only %d of them before the next FAB header / the end of the file'
+                         % (what, short[0][2], short[0][1]))
+                continue
+            cands = [c for c in cands if not isinstance(c, tuple)]
             sub = None
             for cand in cands:
                 o2 = Obl(ctx)
